@@ -5,6 +5,18 @@
 //! line:   h <type> <value1> <value2>    -> OK <h(value1)> <h(value2)>
 //!         r <type> <value>              -> OK <writer> <alive xcdr1> <alive xcdr2>
 //!                                             <key xcdr1> <key xcdr2> <keyhash alive> <keyhash disposed>
+//!         s <k|f<frag>> <1|2> <type> <w|d|u><value> ...
+//!                                        whole stack (vh::sim): two participants, dynamic topic,
+//!                                        reliable writer (XCDR1|XCDR2) and reader; every op is
+//!                                        write / dispose / unregister of the sample, the network
+//!                                        is pumped and the reader takes:
+//!                                        -> OK <writer lookup_instance> <reader SampleInfo.instance_handle> ...
+//!                                        The change reaches the reader WITHOUT key hash: f<frag> =
+//!                                        transport fragment size (samples travel as DATA_FRAG, which
+//!                                        never carries PID_KEY_HASH), k = the PID_KEY_HASH parameter of
+//!                                        every user DATA in flight is renamed to an unknown vendor pid
+//!                                        (a foreign writer that omits the key hash).  Runs in a child
+//!                                        process (`--sim`): the factory owns a process-wide channel.
 //! handle: 32 hex digits | E<n> (XTypesError / failed derivation) | P (panic)
 //!
 //! type:   b y u8 i8 u16 i16 u32 i32 u64 i64 f32 f64 f128 c8 | s<bound> | q<bound>(T)
@@ -31,7 +43,13 @@ use dust_dds::xtypes::dynamic_type::{
     MemberDescriptor, TryConstructKind, TypeDescriptor, TypeKind,
 };
 use dust_dds::xtypes::error::XTypesError;
+use dust_dds::dds_async::domain_participant_factory::DomainParticipantFactoryAsync;
+use dust_dds::infrastructure::qos::{DataReaderQos, DataWriterQos, QosKind};
+use dust_dds::infrastructure::qos_policy::{HistoryQosPolicyKind, ReliabilityQosPolicyKind};
+use dust_dds::infrastructure::sample_info::{ANY_INSTANCE_STATE, ANY_SAMPLE_STATE, ANY_VIEW_STATE};
+use std::io::{BufRead, Write};
 use std::panic::{catch_unwind, AssertUnwindSafe};
+use vh::sim::{Packet, Sim, SimRuntime, SimTransport};
 use std::sync::Arc;
 
 struct P<'a> {
@@ -465,8 +483,218 @@ fn paths(t: DynamicType<'static>, d: &DynamicData<'static>) -> String {
     out.join(" ")
 }
 
+// ------------------------------------------------------------ whole stack (op s)
+
+const BUDGET: i64 = 5_000_000_000;
+
+/// Renames PID_KEY_HASH (0x0070) in the inline QoS of every DATA submessage of the datagram
+/// to 0x8070 (vendor specific, not must-understand: ignored by the receiver).
+fn strip_key_hash(b: &mut [u8]) {
+    let mut p = 20;
+    while p + 4 <= b.len() {
+        let (id, flags) = (b[p], b[p + 1]);
+        let le = flags & 1 == 1;
+        let rd16 = |x: &[u8], i: usize| -> usize {
+            if le { u16::from_le_bytes([x[i], x[i + 1]]) as usize } else { u16::from_be_bytes([x[i], x[i + 1]]) as usize }
+        };
+        let mut len = rd16(b, p + 2);
+        let body = p + 4;
+        if len == 0 || body + len > b.len() {
+            len = b.len() - body;
+        }
+        if id == 0x15 && flags & 2 != 0 && len >= 20 {
+            let mut q = body + 4 + rd16(b, body + 2);
+            while q + 4 <= body + len {
+                let pid = rd16(b, q);
+                let plen = rd16(b, q + 2);
+                if pid == 1 {
+                    break;
+                }
+                if pid == 0x0070 {
+                    let v: [u8; 2] = if le { 0x8070u16.to_le_bytes() } else { 0x8070u16.to_be_bytes() };
+                    b[q] = v[0];
+                    b[q + 1] = v[1];
+                }
+                q += 4 + plen;
+            }
+        }
+        p = body + len;
+    }
+}
+
+fn sim_scenario(line: &str) -> String {
+    let parts: Vec<&str> = line.split_whitespace().collect();
+    let (strip, frag) = match parts[1] {
+        "k" => (true, 1344usize),
+        f => (false, f[1..].parse().expect("frag")),
+    };
+    let repr = if parts[2] == "2" { XCDR2_DATA_REPRESENTATION } else { XCDR_DATA_REPRESENTATION };
+    let t = parse_type(&mut P::new(parts[3]));
+    let sim = Sim::new(frag);
+    let factory = DomainParticipantFactoryAsync::new(
+        SimRuntime(sim.shared.clone()),
+        [1, 2, 3, 4],
+        [5, 6, 7, 8],
+        SimTransport(sim.shared.clone()),
+        Default::default(),
+    );
+    let mut pump = |sim: &Sim| {
+        for _ in 0..4 {
+            let n = sim.pump(100_000, &mut |_p: &Packet| 0);
+            if n == 0 {
+                break;
+            }
+        }
+    };
+    macro_rules! go {
+        ($e:expr) => {
+            match sim.run($e, BUDGET) {
+                Ok(Ok(x)) => {
+                    sim.settle();
+                    x
+                }
+                Ok(Err(e)) => return format!("SETUP {:?}", e),
+                Err(_) => return "SETUP STUCK".to_string(),
+            }
+        };
+    }
+    let p0 = go!(factory.create_participant(0, QosKind::Default, None::<()>, &[]));
+    let p1 = go!(factory.create_participant(0, QosKind::Default, None::<()>, &[]));
+    let t0 = go!(p0.create_dynamic_topic("t", "T", QosKind::Default, None::<()>, &[], t));
+    let t1 = go!(p1.create_dynamic_topic("t", "T", QosKind::Default, None::<()>, &[], t));
+    let pb = go!(p0.create_publisher(QosKind::Default, None::<()>, &[]));
+    let sb = go!(p1.create_subscriber(QosKind::Default, None::<()>, &[]));
+    pump(&sim);
+    let mut wq = DataWriterQos::default();
+    wq.reliability.kind = ReliabilityQosPolicyKind::Reliable;
+    wq.history.kind = HistoryQosPolicyKind::KeepAll;
+    wq.representation = DataRepresentationQosPolicy { value: vec![repr] };
+    let mut rq = DataReaderQos::default();
+    rq.reliability.kind = ReliabilityQosPolicyKind::Reliable;
+    rq.history.kind = HistoryQosPolicyKind::KeepAll;
+    rq.representation =
+        DataRepresentationQosPolicy { value: vec![XCDR_DATA_REPRESENTATION, XCDR2_DATA_REPRESENTATION] };
+    let w = go!(pb.create_datawriter::<DynamicData<'static>>(&t0, QosKind::Specific(wq), None::<()>, &[]));
+    let r = go!(sb.create_datareader::<DynamicData<'static>>(&t1, QosKind::Specific(rq), None::<()>, &[]));
+    let mut matched = false;
+    for _ in 0..20 {
+        pump(&sim);
+        if let Ok(Ok(st)) = sim.run(w.get_publication_matched_status(), BUDGET) {
+            if st.current_count >= 1 {
+                matched = true;
+                break;
+            }
+        }
+        sim.advance(500_000_000);
+    }
+    if !matched {
+        return "SETUP NOMATCH".to_string();
+    }
+    pump(&sim);
+    let mut out = vec![];
+    for tok in &parts[4..] {
+        let (op, val) = tok.split_at(1);
+        let d = parse_struct(&mut P::new(val), Some(t));
+        // the handle the writer side assigns
+        let hw_of = |sim: &Sim| -> String {
+            match sim.run(w.lookup_instance(d.clone()), BUDGET) {
+                Ok(Ok(Some(h))) => show(Ok(h)),
+                Ok(Ok(None)) => "E41".to_string(),
+                Ok(Err(_)) => "E43".to_string(),
+                Err(_) => "E44".to_string(),
+            }
+        };
+        let mut hw = if op != "w" { hw_of(&sim) } else { String::new() };
+        let res = match op {
+            "w" => sim.run(w.write(d.clone(), None), BUDGET),
+            "d" => sim.run(w.dispose(d.clone(), None), BUDGET),
+            _ => sim.run(w.unregister_instance(d.clone(), None), BUDGET),
+        };
+        sim.settle();
+        if op == "w" {
+            hw = hw_of(&sim);
+        }
+        if !matches!(res, Ok(Ok(()))) {
+            out.push(format!("{} E45", if hw.len() == 32 { "E45".to_string() } else { hw }));
+            continue;
+        }
+        // deliver, renaming the key hash of user DATA in flight when asked to
+        for round in 0..6 {
+            if strip {
+                for p in sim.shared.inflight.lock().unwrap().iter_mut() {
+                    if !p.meta {
+                        strip_key_hash(&mut p.bytes);
+                    }
+                }
+            }
+            let n = sim.pump(1, &mut |_p: &Packet| 0);
+            if n == 0 {
+                if round >= 1 {
+                    break;
+                }
+                sim.advance(300_000_000);
+            }
+        }
+        // pump(1) above delivers one datagram per round: drain the rest the same way
+        loop {
+            if strip {
+                for p in sim.shared.inflight.lock().unwrap().iter_mut() {
+                    if !p.meta {
+                        strip_key_hash(&mut p.bytes);
+                    }
+                }
+            }
+            if sim.pump(1, &mut |_p: &Packet| 0) == 0 {
+                break;
+            }
+        }
+        let hr = match sim.run(r.take(100, ANY_SAMPLE_STATE, ANY_VIEW_STATE, ANY_INSTANCE_STATE), BUDGET) {
+            Ok(Ok(samples)) if samples.len() == 1 => show(Ok(samples[0].sample_info.instance_handle)),
+            Ok(Ok(samples)) if samples.is_empty() => "E40".to_string(),
+            Ok(Ok(_)) => "E42".to_string(),
+            Ok(Err(_)) => "E40".to_string(),
+            Err(_) => "E44".to_string(),
+        };
+        out.push(format!("{} {}", hw, hr));
+    }
+    format!("OK {}", out.join(" "))
+}
+
+fn run_sim_child(line: &str) -> String {
+    let exe = std::env::current_exe().unwrap();
+    let mut child = std::process::Command::new(&exe)
+        .arg("--sim")
+        .stdin(std::process::Stdio::piped())
+        .stdout(std::process::Stdio::piped())
+        .stderr(std::process::Stdio::null())
+        .spawn()
+        .unwrap();
+    child.stdin.take().unwrap().write_all(format!("{}\n", line).as_bytes()).unwrap();
+    let o = child.wait_with_output().unwrap();
+    let s = String::from_utf8_lossy(&o.stdout);
+    let last = s.lines().last().unwrap_or("").to_string();
+    if last.is_empty() { "ABORT".to_string() } else { last }
+}
+
+/// entry point shared by the c11 and c12 binaries
+pub fn main_entry() {
+    let args: Vec<String> = std::env::args().collect();
+    if args.get(1).map(|s| s.as_str()) == Some("--sim") {
+        let mut line = String::new();
+        std::io::stdin().lock().read_line(&mut line).unwrap();
+        std::panic::set_hook(Box::new(|_| {}));
+        let r = catch_unwind(AssertUnwindSafe(|| sim_scenario(line.trim())));
+        println!("{}", r.unwrap_or_else(|_| "PANIC".to_string()));
+        std::process::exit(0);
+    }
+    vh::main_loop(run_line);
+}
+
 pub fn run_line(line: &str) -> String {
     let parts: Vec<&str> = line.split_whitespace().collect();
+    if parts[0] == "s" {
+        return run_sim_child(line);
+    }
     let t = parse_type(&mut P::new(parts[1]));
     match parts[0] {
         "h" => {
@@ -484,5 +712,5 @@ pub fn run_line(line: &str) -> String {
 
 #[allow(dead_code)]
 fn main() {
-    vh::main_loop(run_line);
+    main_entry();
 }
